@@ -452,7 +452,7 @@ func (e *env) surplusProposal(target int, ids []uint64) bool {
 			}
 		}
 		if known && model == nil {
-			model = []string{fmt.Sprintf("BkWithdrawSurplus 1 %d 1", 100+target)}
+			model = []string{fmt.Sprintf("BankSend %d %d 0 0", 100+target, 100+target)} // nothing to pay: the model must change nothing
 		}
 	}
 	if !known {
